@@ -117,12 +117,33 @@ void ir_check_access(u64 a, u64 n);
 static inline u64 IR_LD64(u64 a) { IR_ASSERT((a & 7) == 0, "unaligned 8-byte load"); IR_RANGE(a); IR_CHK(a, 8); return ir_ldw(a); }
 static inline u32 IR_LD32(u64 a) { IR_ASSERT((a & 3) == 0, "unaligned 4-byte load"); IR_RANGE(a); IR_CHK(a, 4); u64 w = ir_ldw(a & ~7ull); return (u32)(w >> ((a & 4) * 8)); }
 static inline u16 IR_LD16(u64 a) { IR_ASSERT((a & 1) == 0, "unaligned 2-byte load"); IR_RANGE(a); IR_CHK(a, 2); u64 w = ir_ldw(a & ~7ull); return (u16)(w >> ((a & 6) * 8)); }
-static inline u8  IR_LD8(u64 a)  { IR_RANGE(a); IR_CHK(a, 1); u64 w = ir_ldw(a & ~7ull); return (u8)(w >> ((a & 7) * 8)); }
+#ifdef IR_BYTEWIN
+/* byte window (opt-in, e.g. C20): a small range of memory is mirrored byte by byte, so that a CONCRETE byte stays a constant for cbmc's constant propagation
+   even when a symbolic byte lives in the same 64-bit word (otherwise every byte of that word turns symbolic and path-wise exploration forks on all of them).
+   All writes to the window must be 1-byte stores (asserted); the word view is kept coherent as well. */
+static u64 ir_bytewin_base; static u8 ir_bytewin[IR_BYTEWIN];
+#define IR_IN_BYTEWIN(a) (ir_bytewin_base != 0 && (a) >= ir_bytewin_base && (a) < ir_bytewin_base + IR_BYTEWIN)
+#define IR_BYTEWIN_NOWIDE(a, n) IR_ASSERT(!(ir_bytewin_base != 0 && (a) + (n) > ir_bytewin_base && (a) < ir_bytewin_base + IR_BYTEWIN), "byte window written by a multi-byte store (harness modelling limit)")
+#else
+#define IR_BYTEWIN_NOWIDE(a, n) ((void)0)
+#endif
+static inline u8  IR_LD8(u64 a)  { IR_RANGE(a); IR_CHK(a, 1);
+#ifdef IR_BYTEWIN
+  { _Bool inwin = IR_IN_BYTEWIN(a); u8 bw = ir_bytewin[inwin ? a - ir_bytewin_base : 0];     /* no control-flow branch on the address */
+    u64 w = ir_ldw(a & ~7ull); return inwin ? bw : (u8)(w >> ((a & 7) * 8)); }
+#else
+  u64 w = ir_ldw(a & ~7ull); return (u8)(w >> ((a & 7) * 8));
+#endif
+}
 static inline u128 IR_LD128(u64 a) { return (u128)IR_LD64(a) | ((u128)IR_LD64(a + 8) << 64); }
-static inline void IR_ST64(u64 a, u64 v) { IR_ASSERT((a & 7) == 0, "unaligned 8-byte store"); IR_RANGE(a); IR_CHK(a, 8); ir_stw(a, v); }
-static inline void IR_ST32(u64 a, u32 v) { IR_ASSERT((a & 3) == 0, "unaligned 4-byte store"); IR_RANGE(a); IR_CHK(a, 4); u64 sh = (a & 4) * 8; u64 w = ir_ldw(a & ~7ull); u64 nw = (w & ~(0xffffffffull << sh)) | ((u64)v << sh); ir_stw(a & ~7ull, nw); }
-static inline void IR_ST16(u64 a, u16 v) { IR_ASSERT((a & 1) == 0, "unaligned 2-byte store"); IR_RANGE(a); IR_CHK(a, 2); u64 sh = (a & 6) * 8; u64 w = ir_ldw(a & ~7ull); u64 nw = (w & ~(0xffffull << sh)) | ((u64)v << sh); ir_stw(a & ~7ull, nw); }
-static inline void IR_ST8(u64 a, u8 v)   { IR_RANGE(a); IR_CHK(a, 1); u64 sh = (a & 7) * 8; u64 w = ir_ldw(a & ~7ull); u64 nw = (w & ~(0xffull << sh)) | ((u64)v << sh); ir_stw(a & ~7ull, nw); }
+static inline void IR_ST64(u64 a, u64 v) { IR_ASSERT((a & 7) == 0, "unaligned 8-byte store"); IR_RANGE(a); IR_CHK(a, 8); IR_BYTEWIN_NOWIDE(a, 8); ir_stw(a, v); }
+static inline void IR_ST32(u64 a, u32 v) { IR_ASSERT((a & 3) == 0, "unaligned 4-byte store"); IR_RANGE(a); IR_CHK(a, 4); IR_BYTEWIN_NOWIDE(a, 4); u64 sh = (a & 4) * 8; u64 w = ir_ldw(a & ~7ull); u64 nw = (w & ~(0xffffffffull << sh)) | ((u64)v << sh); ir_stw(a & ~7ull, nw); }
+static inline void IR_ST16(u64 a, u16 v) { IR_ASSERT((a & 1) == 0, "unaligned 2-byte store"); IR_RANGE(a); IR_CHK(a, 2); IR_BYTEWIN_NOWIDE(a, 2); u64 sh = (a & 6) * 8; u64 w = ir_ldw(a & ~7ull); u64 nw = (w & ~(0xffffull << sh)) | ((u64)v << sh); ir_stw(a & ~7ull, nw); }
+static inline void IR_ST8(u64 a, u8 v)   { IR_RANGE(a); IR_CHK(a, 1);
+#ifdef IR_BYTEWIN
+  if (IR_IN_BYTEWIN(a)) ir_bytewin[a - ir_bytewin_base] = v;
+#endif
+  u64 sh = (a & 7) * 8; u64 w = ir_ldw(a & ~7ull); u64 nw = (w & ~(0xffull << sh)) | ((u64)v << sh); ir_stw(a & ~7ull, nw); }
 static inline void IR_ST128(u64 a, u128 v) { IR_ST64(a, (u64)v); IR_ST64(a + 8, (u64)(v >> 64)); }
 #else
 static inline u64 ir_widx(u64 a) {
